@@ -605,8 +605,18 @@ fn trie_targets(ctx: &mut Ctx) {
                 let mut m = Model::default(); m.defer_len = keyed; let mut km = KeyModel::default(); let mut serial = 0usize;
                 let nops = 30 + c.rng.usize_below(if c.tier == crate::ctx::Tier::Quick { 50 } else { 150 });
                 let mut ktrace = Vec::new();
-                for step in 0..nops {
-                    let roll = c.rng.below(100); let live: Vec<u32> = m.live.keys().copied().collect(); let at;
+                // the last POST steps run after finalize(): mutations may then be refused, but a refused call must leave every answer unchanged
+                const POST: usize = 8; let mut fin = "";
+                for step in 0..nops + POST {
+                    if step == nops {
+                        if keyed { check_keys(c, &mut t.0, &km, "before finalize", true)?; }
+                        // finalize() may refuse (the embedded offset index can reject the record sizes); either way the store must keep answering
+                        fin = match t.0.finalize() { Ok(()) => { c.note("finalize_ok", 1); "finalized_" } Err(e) => { c.note("finalize_err", 1); c.log(format!("finalize: {e}")); "finalize_refused_" } };
+                        c.set_nontrivial(m.issued.len() >= 2);
+                        pre(fin, check_all(c, &t, &m, "after finalize"))?;
+                        if keyed { pre(fin, check_keys(c, &mut t.0, &km, "after finalize", true))?; }
+                    }
+                    let roll = if step >= nops { [10u64, 35, 50, 60][c.rng.usize_below(4)] } else { c.rng.below(100) }; let live: Vec<u32> = m.live.keys().copied().collect(); let at;
                     if roll < 30 && live.len() < 24 || live.is_empty() {
                         let data = &pool[c.rng.usize_below(pool.len())]; serial += 1; let key = trie_key(&mut c.rng, kmode, serial); tag_keys(c, &key); ktrace.extend_from_slice(&key); ktrace.push(b'|');
                         if km.latest.contains_key(&key) { c.tag("dup_key"); }
@@ -634,17 +644,11 @@ fn trie_targets(ctx: &mut Ctx) {
                         if !km.latest.contains_key(&k) && !km.tainted.contains(&k) { ensure!(!t.0.contains_key(&k), "key_contains_absent", "{at}: contains_key({}) true", ab(&k)); if let Ok(g) = t.0.get_by_key(&k) { return Err(bad("key_get_absent_ok", format!("{at}: get_by_key({}) returned {}", ab(&k), ab(&g)))); } c.ev(2); }
                     } else { at = format!("op#{step} key reads"); check_keys(c, &mut t.0, &km, &at, true)?; }
                     // dup-key bookkeeping: removing a record whose key was re-put later leaves that key in an unspecified state
+                    if step >= nops { c.note("post_finalize_ops", 1); let at = format!("{at} (after finalize)"); pre(fin, check_all(c, &t, &m, &at))?; if keyed { pre(fin, check_keys(c, &mut t.0, &km, &at, true))?; } continue; }
                     check_all(c, &t, &m, &at)?;
                     if keyed { check_keys(c, &mut t.0, &km, &at, false)?; }
                 }
                 c.input("keys", &ktrace);
-                if keyed { check_keys(c, &mut t.0, &km, "before finalize", true)?; }
-                // finalize() may refuse (the embedded offset index can reject the record sizes); either way the store must keep answering
-                let fin = match t.0.finalize() { Ok(()) => { c.note("finalize_ok", 1); "finalized_" } Err(e) => { c.note("finalize_err", 1); c.log(format!("finalize: {e}")); "finalize_refused_" } };
-                c.set_nontrivial(m.issued.len() >= 2);
-                pre(fin, check_all(c, &t, &m, "after finalize"))?;
-                if keyed { pre(fin, check_keys(c, &mut t.0, &km, "after finalize", true))?; }
-                if t.0.put(b"late").is_ok() { c.note("put_after_finalize_ok", 1); }
                 Ok(())
             });
           }
